@@ -57,6 +57,14 @@ Definition range_of_spec (sp : brspec) : range :=
   | Suffix n => Range (- n) None
   end.
 
+(* the canonical RFC 7233 spelling of a byte-range-spec: bytes=first-last, bytes=first-, bytes=-n *)
+Definition render_spec (sp : brspec) : str :=
+  match sp with
+  | FirstLast f l => S_bytes_eq ++ nat_str f ++ [45%N] ++ nat_str l
+  | FirstOnly f => S_bytes_eq ++ nat_str f ++ [45%N]
+  | Suffix n => S_bytes_eq ++ [45%N] ++ nat_str n
+  end.
+
 (* ---------------------------------------------------------------- validators *)
 (* If-None-Match lists the response's entity tag (weak comparison), or is "*" *)
 Definition inm_matches (i : cin) : bool :=
